@@ -941,6 +941,41 @@ fn shape_tables(out: &mut String) {
     writeln!(out, "def apiNoClone : List (String × String × String) := [\n  {}]\n\nend Soa.Extracted", fmt_api(&api_nc)).unwrap();
 }
 
+
+// ---------- bodies of the generated functions (text pin of the hand-written model) ----------
+fn bodies(out: &mut String) {
+    use std::fmt::Write;
+    let src = "#[soa_derive(Clone)] pub struct P { pub a: A, #[nested_soa] pub n: N, pub c: C }";
+    let ast: syn::DeriveInput = syn::parse_str(src).expect("parse");
+    let input = input::Input::new(ast);
+    let mut rows: Vec<String> = vec![];
+    let mut seen: std::collections::HashMap<String, usize> = Default::default();
+    // the index layer and the trait layer are translated (Index.lean, Generic.lean); here: everything else
+    for (file, tstream) in [("vec", vec::derive(&input)), ("refs", refs::derive(&input)), ("ptr", ptr::derive(&input)), ("slice", slice::derive(&input)),
+                            ("slice_mut", slice::derive_mut(&input)), ("iter", iter::derive(&input))] {
+        let f: syn::File = syn::parse2(tstream).expect("generated code parses");
+        for item in &f.items {
+            if let Item::Impl(im) = item {
+                let owner = ts(&im.self_ty);
+                let tr = im.trait_.as_ref().map(|(_, p, _)| format!("<{}>", ts(p))).unwrap_or_default();
+                for ii in &im.items {
+                    if let ImplItem::Fn(fun) = ii {
+                        let mut key = format!("{}{}::{}", owner, tr, fun.sig.ident);
+                        let n = seen.entry(key.clone()).or_insert(0); *n += 1;
+                        if *n > 1 { key = format!("{}#{}", key, n); }
+                        let text = format!("{} {}", flat(fun.sig.to_token_stream()), flat(fun.block.to_token_stream()));
+                        rows.push(format!("  ({}, {}, {}, {})", lean_str(file), lean_str(&key), lean_str(&fun.sig.ident.to_string()), lean_str(&text)));
+                    }
+                }
+            }
+        }
+    }
+    writeln!(out, "-- generated by /verif/extract from the generator sources in /repo/soa-derive-internal/src (schematic struct P {{ a: A, #[nested_soa] n: N, c: C }}, with the Clone API); do not edit").unwrap();
+    writeln!(out, "namespace Soa.Extracted\n").unwrap();
+    writeln!(out, "/-- (generator file, qualified function, function name, signature and body as one token per word) of every generated function outside the index and trait layers -/").unwrap();
+    writeln!(out, "def bodies : List (String × String × String × String) := [\n{}]\n\nend Soa.Extracted", rows.join(",\n")).unwrap();
+}
+
 /// write only when the content changed, so that `lake build` re-checks nothing on an unchanged tree
 fn write_if_changed(path: &str, content: &str) {
     if std::fs::read_to_string(path).map(|old| old == content).unwrap_or(false) { return; }
@@ -973,4 +1008,7 @@ fn main() {
     let mut h = String::new();
     shape_tables(&mut h);
     write_if_changed(&format!("{}/Shape.lean", outdir), &h);
+    let mut b = String::new();
+    bodies(&mut b);
+    write_if_changed(&format!("{}/Bodies.lean", outdir), &b);
 }
